@@ -33,6 +33,10 @@ type MathParagraph struct {
 
 // MarshalXML 自定义序列化
 func (mp *MathParagraph) MarshalXML(e *xml.Encoder, start xml.StartElement) error {
+	// 正文元素由 Body 逐个 Encode，自定义序列化时起始元素名取自类型名（MathParagraph），
+	// 而不是 XMLName 标签：这里明确写成 w:p
+	start.Name = xml.Name{Local: "w:p"}
+
 	// 开始段落元素
 	if err := e.EncodeToken(start); err != nil {
 		return err
@@ -122,4 +126,73 @@ func (p *Paragraph) AddInlineMath(ommlContent string) {
 		},
 	}
 	p.Runs = append(p.Runs, run)
+}
+
+// mathNamespaceDeclaration 返回元素自身携带的 xmlns:m 声明（没有则为空）
+func mathNamespaceDeclaration(attrs []xml.Attr) string {
+	for _, attr := range attrs {
+		if attr.Name.Space == "xmlns" && attr.Name.Local == "m" {
+			return attr.Value
+		}
+	}
+	return ""
+}
+
+// parseOfficeMath 解析 m:oMath 元素：内部XML按原样（主文档部件中的原始字节）读回
+func (d *Document) parseOfficeMath(decoder *xml.Decoder, startElement xml.StartElement) (*OfficeMath, error) {
+	math := &OfficeMath{Xmlns: mathNamespaceDeclaration(startElement.Attr)}
+
+	// 调用时起始标签已被读取：内部XML从当前位置开始，到配对的结束标签之前为止
+	begin := decoder.InputOffset()
+	end := begin
+	for depth := 1; depth > 0; {
+		end = decoder.InputOffset()
+		token, err := decoder.Token()
+		if err != nil {
+			return nil, WrapError("parse_office_math", err)
+		}
+
+		switch token.(type) {
+		case xml.StartElement:
+			depth++
+		case xml.EndElement:
+			depth--
+		}
+	}
+	if begin <= end && end <= int64(len(d.parseSource)) {
+		math.RawXML = string(d.parseSource[begin:end])
+	}
+	return math, nil
+}
+
+// parseOfficeMathPara 解析 m:oMathPara 元素
+func (d *Document) parseOfficeMathPara(decoder *xml.Decoder, startElement xml.StartElement) (*OfficeMathPara, error) {
+	mathPara := &OfficeMathPara{Xmlns: mathNamespaceDeclaration(startElement.Attr)}
+
+	for {
+		token, err := decoder.Token()
+		if err != nil {
+			return nil, WrapError("parse_office_math_para", err)
+		}
+
+		switch t := token.(type) {
+		case xml.StartElement:
+			switch t.Name.Local {
+			case "oMath":
+				math, err := d.parseOfficeMath(decoder, t)
+				if err != nil {
+					return nil, err
+				}
+				mathPara.Math = math
+			default:
+				if err := d.skipElement(decoder, t.Name.Local); err != nil {
+					return nil, err
+				}
+			}
+		case xml.EndElement:
+			if t.Name.Local == "oMathPara" {
+				return mathPara, nil
+			}
+		}
+	}
 }
